@@ -22,6 +22,10 @@ Require Import Ctpg.Proofs.SafeTerm.
 Require Import Ctpg.Proofs.SafeDfa.
 Require Import Ctpg.Proofs.DriverPos.
 Require Import Ctpg.Proofs.BuilderTerm.
+Require Import Ctpg.Valid.LRProductive.
+Require Import Ctpg.Proofs.TermViable.
+Require Import Ctpg.Proofs.TermAll.
+Require Import Ctpg.Proofs.TermGeneric.
 From Coq Require Import Permutation.
 
 (* every unchecked array/stack access of the driver (table row and column, rule_infos, erase/back/pop on the stacks, the goto after a reduction, the lexeme extent) is in range: the run never ends in Crash, for any input, options, stack capacity, functors, also through error recovery *)
@@ -65,6 +69,42 @@ Theorem C06_terminates_on_accepted_inputs :
   forall (g : grammar) (sts : list items) (tbl : LRGen.table) (w : list nat) (t : tree), validate_sound g sts tbl = true -> no_error_symbol g tbl = true -> LRSound.tokens_ok g w -> accepts g tbl w t -> tsize t = length w + nodes t /\ (forall fuel : nat, (tsize t < fuel -> tree_run g tbl w fuel = Accept t) /\ (fuel <= tsize t -> tree_run g tbl w fuel = OutOfFuel)).
 Proof. exact accepted_fuel_exact. Qed.
 Print Assumptions C06_terminates_on_accepted_inputs.
+
+(* TERMINATION ON EVERY INPUT, accepted or not: for any functors, options, buffer and lexer (non-empty in-range lexemes), a table that passes term_checks (validated LR(1) automaton with justified lookaheads of a productive grammar - discharged on the real tables) and has no error rules: some fuel suffices and more fuel changes nothing *)
+Theorem C06_terminates_on_every_input :
+  forall (V C : Type) (g : grammar) (sts : list items) (tbl : LRGen.table) (opts : options) (buf : list nat) (lexer : bool -> spoint -> list nat -> list lex_event * option (nat * nat)) (term_f : nat -> nat -> nat -> spoint -> V) (err_f : spoint -> V) (rule_f : nat -> C -> list V -> C * V) (c0 : C), term_checks g sts tbl = true -> no_error_symbol g tbl = true -> lexer_ok_for g lexer -> lexer_in_range lexer -> exists fuel : nat, fst (fst (run V C g tbl opts buf None lexer term_f err_f rule_f fuel c0)) <> OutOfFuel.
+Proof. exact generic_run_halts_checked. Qed.
+Print Assumptions C06_terminates_on_every_input.
+
+(* the LR machine itself (shift/reduce/accept/error cell) halts on every token string, error rules or not: no endless chain of reductions *)
+Theorem C06_machine_halts_also_with_error_rules :
+  forall (g : grammar) (sts : list items) (tbl : LRGen.table) (w : list nat), term_checks g sts tbl = true -> LRSound.tokens_ok g w -> exists (n : nat) (c : LRMachine.cfg), LRMachine.msteps g tbl n ([0], [], w) c /\ match LRMachine.mstep g tbl c with | LRMachine.Next _ => False | _ => True end.
+Proof. exact machine_halts_checked. Qed.
+Print Assumptions C06_machine_halts_also_with_error_rules.
+
+(* with error rules: the run ends or reaches recovery mode (what happens from there is covered by the two progress lemmas below, not by a termination theorem) *)
+Theorem C06_parse_up_to_the_first_error_terminates :
+  forall (g : grammar) (sts : list items) (tbl : LRGen.table) (w : list nat), validate g sts tbl = true -> lookahead_generated g sts -> ReportViable.states_nonempty sts -> reduce_lookahead g sts tbl -> ReportLang.productive g -> LRSound.tokens_ok g w -> exists (fuel : nat) (r : result tree) (s : pstate tree unit) (out : list event), run tree unit g tbl tree_opts w None id_lexer LRMachine.tf (LRMachine.ef g) LRMachine.rlf fuel tt = (r, s, out) /\ (r <> OutOfFuel \/ r = OutOfFuel /\ ps_rec s = true).
+Proof. exact first_error_or_end. Qed.
+Print Assumptions C06_parse_up_to_the_first_error_terminates.
+
+(* the reason: every reduction is made on a lookahead that continues some sentence *)
+Theorem C06_every_action_is_viable :
+  forall (g : grammar) (sts : list items) (tbl : LRGen.table) (w : list nat) (cur : nat) (ss : list nat) (trs : list tree) (rest : list nat) (e : entry), validate g sts tbl = true -> lookahead_generatedb g sts = true -> reduce_lookaheadb g sts tbl = true -> productiveb g = true -> LRSound.tokens_ok g w -> ReportLang.reach g tbl w (cur :: ss, trs, rest) -> cell tbl cur (nterm_count g + LRMachine.look g rest) = inl e -> e_kind e = KReduce -> let u := flat_map yield (rev trs) in (rest <> [] -> ReportLang.sentence_prefix g (u ++ [LRMachine.look g rest])) /\ (rest = [] -> exists t : tree, derives_tree g t u).
+Proof. exact action_viable_checked. Qed.
+Print Assumptions C06_every_action_is_viable.
+
+(* REFUTED without the lookahead check: a table that passes validate and loops forever *)
+Theorem C06_halting_needs_justified_lookaheads_refuted :
+  validate ReportCex.g2 ReportCex.sts2 ReportCex.tbl2 = true /\ states_nonempty_b ReportCex.sts2 = true /\ reduce_lookaheadb ReportCex.g2 ReportCex.sts2 ReportCex.tbl2 = true /\ productiveb ReportCex.g2 = true /\ no_error_symbol ReportCex.g2 ReportCex.tbl2 = true /\ LRSound.tokens_ok ReportCex.g2 [1] /\ lookahead_generatedb ReportCex.g2 ReportCex.sts2 = false /\ (forall fuel : nat, tree_run ReportCex.g2 ReportCex.tbl2 [1] fuel = OutOfFuel).
+Proof. exact halting_refuted_without_lookahead_generated. Qed.
+Print Assumptions C06_halting_needs_justified_lookaheads_refuted.
+
+(* hence parse is a decision procedure: accepted with a derivation tree iff derivable, rejected iff not *)
+Theorem C06_decides_the_language :
+  forall (g : grammar) (sts : list items) (tbl : LRGen.table) (w : list nat), term_checks g sts tbl = true -> no_error_symbol g tbl = true -> LRSound.tokens_ok g w -> exists fuel : nat, forall fuel' : nat, fuel <= fuel' -> (derives g w -> exists t : tree, tree_run g tbl w fuel' = Accept t /\ derives_tree g t w) /\ (~ derives g w -> tree_run g tbl w fuel' = Reject).
+Proof. exact decides_language_checked. Qed.
+Print Assumptions C06_decides_the_language.
 
 (* without error rules a reported error ends the parse within stack-height further iterations *)
 Theorem C06_terminates_after_an_error_without_error_rules :
